@@ -2554,7 +2554,7 @@ def stage_corr_int(ctx, env):
     n = ctx.scale(150, 3000)
     rng = ctx.rng("corr/int")
     I = env.integer
-    cases, lines, shape_lines = [], [], []
+    cases, lines, shape_lines, frag_lines = [], [], [], []
     for it in range(n):
         r = it % 3
         if r == 0:
@@ -2583,9 +2583,13 @@ def stage_corr_int(ctx, env):
                 impl = "raise:" + type(e).__name__
             cases.append((op, t, t2, impl))
             lines.append(sexp.dumps([op] + args))
+            if op == "intsimp":
+                # the hypothesis of int_norm_nf_closed / int_norm_idem (powers only of atoms), decided
+                # by the driver on every generated input
+                frag_lines.append(sexp.dumps(["isnfi"] + args))
             if op == "intsimp" and impl.startswith("("):
-                # the real simp_full output must have the normal-form shape isNFI (closure is not yet
-                # proved in Lean for the integer normaliser)
+                # the real simp_full output must itself have the normal-form shape isNFI of
+                # int_norm_nf_closed
                 shape_lines.append(sexp.dumps(["isnfishape", sexp.loads(impl)]))
     shape_out = ctx.lean_driver(EXE, shape_lines, timeout=600) if shape_lines else []
     for v in (shape_out or []):
@@ -2593,6 +2597,8 @@ def stage_corr_int(ctx, env):
         if v != "T":
             ctx.broken("correspondence:c10:isnfi", "a simp_full output does not have the normal-form shape isNFI")
             break
+    for v in (ctx.lean_driver(EXE, frag_lines, timeout=600) if frag_lines else []) or []:
+        ctx.count("int:atomic-powers:" + v.replace(" ", ""))
     out = ctx.lean_driver(EXE, lines, timeout=1200) if lines else []
     if out is None:
         ctx.broken("correspondence:c10:driver", "model driver unavailable")
@@ -3007,13 +3013,17 @@ MANIFEST = {
             "(7) The integer Conv normaliser (simp_full, int_norm_conv, int_norm_eq) is modelled (IntModel.lean) and compared tree "
             "for tree with the real conversions' right-hand sides: int_norm_sound (value preserved in Z), int_norm_eq_sound (the "
             "returned lhs = 0 is equivalent to a = b), int_norm_canonical_partial (normal form has the polynomial of the term; same "
-            "normal form => same polynomial). Towards the converse: the model's order on numeral exponents and on monomial bodies "
-            "(fast_compare: lexicographic size / function-part size / head / structure with base rank and numeral exponent; tied by "
-            "the intsimp stream) is proved a strict total order (int_numCmp_total, int_bodyCmp_total: swap, eq only on identical "
-            "bodies, transitivity) and the multiplicative monomial layer is proved closed (int_mult_monomial_closed: norm_mult_atom / "
-            "norm_mult_monomial keep the monomial shape); every real simp_full output is checked against the normal-form shape isNFI "
-            "by the driver op isnfishape. NOT proved: closure of the additive layer (insMI / addPI / subPI with cancellation) and of "
-            "mulPI / simpFull, idempotence, injectivity, hence same polynomial => same normal form and the canonicity of int_norm_eq. "
+            "normal form => same polynomial). Towards the converse, along the nat template: the model's order on numeral exponents and "
+            "on monomial bodies (fast_compare: lexicographic size / function-part size / head / structure with base rank and numeral "
+            "exponent; tied by the intsimp stream) is proved a strict total order (int_numCmp_total, int_bodyCmp_total: swap, eq only "
+            "on identical bodies, transitivity); CLOSURE int_norm_nf_closed (simp_full returns 0 or a strictly increasing sum of "
+            "monomials c * body, c != 0, with strictly increasing atomic bases; norm_add_monomial / norm_add_polynomial / subtraction "
+            "/ norm_mult_polynomials keep that shape, also when coefficients cancel; int_mult_monomial_closed for the multiplicative "
+            "layer) and IDEMPOTENCE int_norm_idem (simp_full rebuilds a normal form from its displayed presentation, so "
+            "int_norm_conv applied to its own result changes nothing) -- on terms whose powers have atomic bases (atomicPowers; "
+            "decided by the driver op isnfi on every generated input, and every real simp_full output is checked against the shape "
+            "isNFI by the driver op isnfishape). NOT proved: injectivity normal form -> polynomial, hence same polynomial => same "
+            "normal form (int_norm_canonical) and the canonicity of int_norm_eq (int_norm_eq_canonical). "
             "For (6) and (7) canonicity is compared against the independent exact-rational evaluator on cancellation-rich pairs "
             "every run, as are the decisions of nat_norm, real_norm, int_eq_macro and int_norm_eq; proplogic.norm_full / sort_conj / "
             "sort_disj on member sets (oracle only). Fast evaluation against checked proof term for every Conv class overriding "
